@@ -189,6 +189,19 @@ func Cleanup(pipe *pubsub.Queue[fun.Worker], timeout time.Duration) *Service {
 		},
 		Shutdown: func() error { return pipe.Close() },
 		Cleanup: func() error {
+			// Run stops at the first context error, which ReadOne
+			// reports without looking at the queue: drain
+			// whatever was accepted before Shutdown closed the
+			// pipe, so that functions added just before the
+			// shutdown still run.
+			for {
+				item, ok := pipe.Remove()
+				if !ok {
+					break
+				}
+				cache.PushBack(item)
+			}
+
 			ctx, cancel := context.WithCancel(context.Background())
 			defer cancel()
 			if timeout > 0 {
